@@ -131,7 +131,16 @@ static void check_pair(const std::string &a, const std::string &b, int m)
     vf::cls("path_compare_node");
     int c = path_compare_node(ea.cc(), eb.cc());
     int rc = sgn(node_of(a).compare(node_of(b)));
-    if (sgn(c) != rc)
+    if (has_high(node_of(a)) || has_high(node_of(b)))
+    {
+        // whether bytes >= 0x80 sort as signed or unsigned char is left open: equality and antisymmetry only
+        int back = path_compare_node(eb.cc(), ea.cc());
+        if ((c == 0) != (rc == 0) || sgn(back) != -sgn(c))
+            vf::fail("path_compare_node:high-bytes:equality/antisymmetry", "a=\"%s\" b=\"%s\" compare(a,b)=%d compare(b,a)=%d, nodes %s", show(a).c_str(),
+                     show(b).c_str(), c, back, rc == 0 ? "equal" : "differ");
+        VF_OK("path_compare_node on nodes with bytes >= 0x80: 0 iff equal, antisymmetric");
+    }
+    else if (sgn(c) != rc)
         vf::fail("path_compare_node:!=reference", "a=\"%s\" b=\"%s\" got=%d ref=%d", show(a).c_str(), show(b).c_str(), c, rc);
     VF_OK("path_compare_node == sign of the lexicographic order of the two nodes");
 
@@ -183,6 +192,22 @@ static void pair_run(uint64_t idx)
 }
 VF_SUITE(path_pairs, pair_count, pair_run)
 
+// the same with the |0x80 twins of '/' and '.' (and 0xFF) next to the real ones
+static const char PHI[6] = {'a', '/', '.', (char)0xAF, (char)0xAE, (char)0xFF};
+static int pairhi_len() { return vf::thorough() ? 4 : 3; }
+static uint64_t pairhi_count() { return nstrings(pairhi_len(), 6); }
+static void pairhi_run(uint64_t idx)
+{
+    std::string a = nth(idx, PHI, 6);
+    uint64_t n = pairhi_count();
+    if (vf::verbose())
+        printf("  path=\"%s\" against every prefix of length <= %d over {a,/,.,0xAF,0xAE,0xFF}\n", show(a).c_str(), pairhi_len());
+    for (uint64_t j = 0; j < n; j++)
+        check_pair(a, nth(j, PHI, 6), (int)((idx + j) & 1));
+    vf::count_bulk(n, idx ? n - 1 : 0);
+}
+VF_SUITE(path_pairs_high, pairhi_count, pairhi_run)
+
 static uint64_t single_count() { return enum_cases(false); }
 static void single_run(uint64_t idx)
 {
@@ -202,7 +227,7 @@ VF_SUITE(path_single, single_count, single_run)
 
 static std::string random_path(vf::Rng &r, size_t maxcomp)
 {
-    static const char *COMP[] = {"a", "b", "ab", "dev", "null", ".", "..", "", "a.b", ".a", "hello", "x"};
+    static const char *COMP[] = {"a", "b", "ab", "dev", "null", ".", "..", "", "a.b", ".a", "hello", "x", "\xAE", "a\xAF" "b", "\xFF", "\xAE\xAE"};
     std::string p = r.chance(1, 2) ? "/" : "";
     size_t n = r.below(maxcomp + 1);
     for (size_t i = 0; i < n; i++)
@@ -248,6 +273,7 @@ void c19_path_setup()
     for (const char *c : {"path_next == first component (or NULL)", "path_iterate == start of the next component (or terminator)",
                           "path_iterate walk visits exactly the components, then \"\" and NULL",
                           "path_compare_node == sign of the lexicographic order of the two nodes",
+                          "path_compare_node on nodes with bytes >= 0x80: 0 iff equal, antisymmetric",
                           "path_remove_prefix removes only leading components that match the prefix",
                           "path_remove_prefix removes exactly the common leading components",
                           "path_remove_prefix: at least one component removed"})
